@@ -365,35 +365,46 @@ Definition cinit (scripts : list (list cop)) : csys := mkCSys cnt0 scripts.
 (* Stack (elements, elementAdded / elementRemoved) with an external wait condition for PopOrWait           *)
 (* ====================================================================================================== *)
 
-(* The wait condition of PopOrWait is one boolean `flag` (the worker pool's isRunning).
+(* The wait condition of PopOrWait is a caller-supplied callback; it is modelled as reading one boolean `flag` (the worker
+   pool's isRunning) at the moment the callback returns.
    KSetFlagLocked b : writes the flag and then passes through the stack's mutex before broadcasting elementAdded
                       (what WorkerPool.Shutdown + Stack.SignalShutdown do after the D16b repair).
-   KSetFlagExt b    : writes the flag without the stack's mutex and broadcasts (the code before the repair). *)
+   KSetFlagExt b    : writes the flag without the stack's mutex and broadcasts (the code before the repair).
+   PopOrWait is three steps per loop iteration, all of them with the stack's mutex held (as in stack.go:64-76):
+     loop head  (popwait_try)  : mutex taken, length looked at; empty -> the thread is INSIDE waitCondition() (kev)
+     callback   (popwait_read) : somewhere inside waitCondition() the flag is read (an arbitrary callback may be slow
+                                 before and after it looks at its condition)
+                (popwait_eval) : waitCondition() returns what it read; false -> return, true -> about to Wait (kchk)
+     Wait                      : registers on elementAdded and releases the mutex
+   so every schedule may try to run other threads while a waiter is inside its callback or between the callback and
+   Wait; operations that need the mutex are not enabled there.
+   krel = true is NOT the code: it is the variant of PopOrWait that releases the mutex while it evaluates the callback
+   and re-acquires it before Wait without looking at the length again (refuted, ProofsWaits.refuted_popOrWait_released).
+   No step changes krel; kinit starts with krel = false. *)
 Inductive kop :=
 | KPush (v : nat) | KPop | KPopOrWait | KWaitBelow (th : nat) | KWaitAbove (th : nat)
-| KSetFlagLocked (b : bool) | KSetFlagExt (b : bool).
-
-Inductive kpc :=
-| KIdle
-| KChecked            (* PopOrWait: holds the mutex, found the stack empty and the condition true, about to Wait *)
-| KFlagSet.           (* SetFlagLocked: flag written, about to pass through the mutex *)
+| KSetFlagLocked (b : bool) | KSetFlagExt (b : bool)
+| KSize.                     (* Size(): read lock on the stack's mutex, no effect *)
 
 Record stk := mkStk {
   els : list nat;
   flag : bool;
-  kmx : option tid;            (* holder of the stack's mutex between two steps (only PopOrWait between check and Wait) *)
+  kmx : option tid;            (* holder of the stack's mutex between two steps (only PopOrWait: inside the callback / before Wait) *)
   aq : list (tid * nat);       (* parked on elementAdded: (thread, 0 = PopOrWait | S th = WaitSizeIsAbove th) *)
   ak : list (tid * nat);       (* woken *)
   xq : list (tid * nat);       (* parked on elementRemoved: WaitSizeIsBelow th *)
   xk : list (tid * nat);
   oa : list tid;               (* owe elementAdded.Broadcast() *)
   ox : list tid;               (* owe elementRemoved.Broadcast() *)
-  kchk : list tid;             (* threads in KChecked *)
-  kfs : list tid;              (* threads in KFlagSet *)
-  pops : list (tid * option nat)   (* results of Pop / PopOrWait, newest first *)
+  kchk : list tid;             (* PopOrWait: holds the mutex, found the stack empty and the condition true, about to Wait *)
+  kfs : list tid;              (* SetFlagLocked: flag written, about to pass through the mutex *)
+  pops : list (tid * option nat);  (* results of Pop / PopOrWait, newest first *)
+  kev : list (tid * option bool);  (* PopOrWait: found the stack empty, inside waitCondition() (mutex held unless krel);
+                                      None = the flag not read yet, Some b = read b, not returned yet *)
+  krel : bool                  (* false = the code; true = variant releasing the mutex around waitCondition() *)
 }.
 
-Definition stk0 : stk := mkStk [] true None [] [] [] [] [] [] [] [] [].
+Definition stk0 : stk := mkStk [] true None [] [] [] [] [] [] [] [] [] [] false.
 
 Fixpoint nmem (t : tid) (l : list (tid * nat)) : bool :=
   match l with [] => false | (x, _) :: r => (x =? t) || nmem t r end.
@@ -402,76 +413,99 @@ Fixpoint nget (t : tid) (l : list (tid * nat)) : option nat :=
 Fixpoint ndel (t : tid) (l : list (tid * nat)) : list (tid * nat) :=
   match l with [] => [] | (x, v) :: r => if x =? t then r else (x, v) :: ndel t r end.
 
+Fixpoint eget (t : tid) (l : list (tid * option bool)) : option (option bool) :=
+  match l with [] => None | (x, v) :: r => if x =? t then Some v else eget t r end.
+Fixpoint edel (t : tid) (l : list (tid * option bool)) : list (tid * option bool) :=
+  match l with [] => [] | (x, v) :: r => if x =? t then r else (x, v) :: edel t r end.
+Fixpoint eset (t : tid) (b : bool) (l : list (tid * option bool)) : list (tid * option bool) :=
+  match l with [] => [] | (x, v) :: r => if x =? t then (x, Some b) :: r else (x, v) :: eset t b r end.
+Definition emem (t : tid) (l : list (tid * option bool)) : bool :=
+  match eget t l with Some _ => true | None => false end.
+
 Definition kbusy (t : tid) (s : stk) : bool :=
   nmem t (aq s) || nmem t (ak s) || nmem t (xq s) || nmem t (xk s) || mem t (oa s) || mem t (ox s)
-  || mem t (kchk s) || mem t (kfs s).
+  || mem t (kchk s) || mem t (kfs s) || emem t (kev s).
 
 Definition mx_free (s : stk) : bool := match kmx s with None => true | Some _ => false end.
 
-(* loop head of PopOrWait under the mutex *)
+(* loop head of PopOrWait under the mutex: pop, or call waitCondition() (with the mutex held; krel: after releasing it) *)
 Definition popwait_try (t : tid) (s : stk) : stk * res :=
   match els s with
-  | x :: r => (mkStk r (flag s) None (aq s) (ak s) (xq s) (xk s) (oa s) (ox s ++ [t]) (kchk s) (kfs s) ((t, Some x) :: pops s), RCont)
-  | [] => if flag s
-          then (mkStk [] (flag s) (Some t) (aq s) (ak s) (xq s) (xk s) (oa s) (ox s) (kchk s ++ [t]) (kfs s) (pops s), RCont)
-          else (mkStk [] (flag s) None (aq s) (ak s) (xq s) (xk s) (oa s) (ox s) (kchk s) (kfs s) ((t, None) :: pops s), RDone)
+  | x :: r => (mkStk r (flag s) None (aq s) (ak s) (xq s) (xk s) (oa s) (ox s ++ [t]) (kchk s) (kfs s) ((t, Some x) :: pops s) (kev s) (krel s), RCont)
+  | [] => (mkStk [] (flag s) (if krel s then None else Some t) (aq s) (ak s) (xq s) (xk s) (oa s) (ox s) (kchk s) (kfs s) (pops s) (kev s ++ [(t, None)]) (krel s), RCont)
   end.
+
+(* inside waitCondition(): the flag is read *)
+Definition popwait_read (t : tid) (s : stk) : stk * res :=
+  (mkStk (els s) (flag s) (kmx s) (aq s) (ak s) (xq s) (xk s) (oa s) (ox s) (kchk s) (kfs s) (pops s) (eset t (flag s) (kev s)) (krel s), RCont).
+
+(* waitCondition() returns b (the code: mutex held all along; krel: the mutex is re-acquired here, kmx must be free) *)
+Definition popwait_eval (t : tid) (b : bool) (s : stk) : stk * res :=
+  if b
+  then (mkStk (els s) (flag s) (Some t) (aq s) (ak s) (xq s) (xk s) (oa s) (ox s) (kchk s ++ [t]) (kfs s) (pops s) (edel t (kev s)) (krel s), RCont)
+  else (mkStk (els s) (flag s) None (aq s) (ak s) (xq s) (xk s) (oa s) (ox s) (kchk s) (kfs s) ((t, None) :: pops s) (edel t (kev s)) (krel s), RDone).
 
 Definition above_k (t : tid) (th : nat) (s : stk) : stk * res :=
   if length (els s) <=? th
-  then (mkStk (els s) (flag s) None (aq s ++ [(t, S th)]) (ak s) (xq s) (xk s) (oa s) (ox s) (kchk s) (kfs s) (pops s), RPark)
-  else (mkStk (els s) (flag s) None (aq s) (ak s) (xq s) (xk s) (oa s) (ox s) (kchk s) (kfs s) (pops s), RDone).
+  then (mkStk (els s) (flag s) None (aq s ++ [(t, S th)]) (ak s) (xq s) (xk s) (oa s) (ox s) (kchk s) (kfs s) (pops s) (kev s) (krel s), RPark)
+  else (mkStk (els s) (flag s) None (aq s) (ak s) (xq s) (xk s) (oa s) (ox s) (kchk s) (kfs s) (pops s) (kev s) (krel s), RDone).
 Definition below_k (t : tid) (th : nat) (s : stk) : stk * res :=
   if th <=? length (els s)
-  then (mkStk (els s) (flag s) None (aq s) (ak s) (xq s ++ [(t, th)]) (xk s) (oa s) (ox s) (kchk s) (kfs s) (pops s), RPark)
-  else (mkStk (els s) (flag s) None (aq s) (ak s) (xq s) (xk s) (oa s) (ox s) (kchk s) (kfs s) (pops s), RDone).
+  then (mkStk (els s) (flag s) None (aq s) (ak s) (xq s ++ [(t, th)]) (xk s) (oa s) (ox s) (kchk s) (kfs s) (pops s) (kev s) (krel s), RPark)
+  else (mkStk (els s) (flag s) None (aq s) (ak s) (xq s) (xk s) (oa s) (ox s) (kchk s) (kfs s) (pops s) (kev s) (krel s), RDone).
 
 (* first step of an operation; None = needs the stack's mutex, which is taken *)
 Definition k_start (t : tid) (o : kop) (s : stk) : option (stk * res) :=
   match o with
   | KSetFlagExt b =>
-      Some (mkStk (els s) b (kmx s) (aq s) (ak s) (xq s) (xk s) (oa s ++ [t]) (ox s) (kchk s) (kfs s) (pops s), RCont)
+      Some (mkStk (els s) b (kmx s) (aq s) (ak s) (xq s) (xk s) (oa s ++ [t]) (ox s) (kchk s) (kfs s) (pops s) (kev s) (krel s), RCont)
   | KSetFlagLocked b =>
-      Some (mkStk (els s) b (kmx s) (aq s) (ak s) (xq s) (xk s) (oa s) (ox s) (kchk s) (kfs s ++ [t]) (pops s), RCont)
+      Some (mkStk (els s) b (kmx s) (aq s) (ak s) (xq s) (xk s) (oa s) (ox s) (kchk s) (kfs s ++ [t]) (pops s) (kev s) (krel s), RCont)
   | _ =>
     if negb (mx_free s) then None else
     match o with
-    | KPush v => Some (mkStk (els s ++ [v]) (flag s) None (aq s) (ak s) (xq s) (xk s) (oa s ++ [t]) (ox s) (kchk s) (kfs s) (pops s), RCont)
+    | KPush v => Some (mkStk (els s ++ [v]) (flag s) None (aq s) (ak s) (xq s) (xk s) (oa s ++ [t]) (ox s) (kchk s) (kfs s) (pops s) (kev s) (krel s), RCont)
     | KPop => match els s with
-              | x :: r => Some (mkStk r (flag s) None (aq s) (ak s) (xq s) (xk s) (oa s) (ox s ++ [t]) (kchk s) (kfs s) ((t, Some x) :: pops s), RCont)
-              | [] => Some (mkStk [] (flag s) None (aq s) (ak s) (xq s) (xk s) (oa s) (ox s) (kchk s) (kfs s) ((t, None) :: pops s), RDone)
+              | x :: r => Some (mkStk r (flag s) None (aq s) (ak s) (xq s) (xk s) (oa s) (ox s ++ [t]) (kchk s) (kfs s) ((t, Some x) :: pops s) (kev s) (krel s), RCont)
+              | [] => Some (mkStk [] (flag s) None (aq s) (ak s) (xq s) (xk s) (oa s) (ox s) (kchk s) (kfs s) ((t, None) :: pops s) (kev s) (krel s), RDone)
               end
     | KPopOrWait => Some (popwait_try t s)
     | KWaitBelow th => Some (below_k t th s)
     | KWaitAbove th => Some (above_k t th s)
+    | KSize => Some (mkStk (els s) (flag s) None (aq s) (ak s) (xq s) (xk s) (oa s) (ox s) (kchk s) (kfs s) (pops s) (kev s) (krel s), RDone)
     | _ => None
     end
   end.
 
 Definition k_cont (t : tid) (s : stk) : option (stk * res) :=
+  match eget t (kev s) with
+  | Some None => Some (popwait_read t s)         (* inside waitCondition(): reads the flag *)
+  | Some (Some b) =>                             (* waitCondition() returns *)
+      if krel s && negb (mx_free s) then None else Some (popwait_eval t b s)
+  | None =>
   if mem t (kchk s) then   (* elementAdded.Wait(): registers and releases the mutex *)
-    Some (mkStk (els s) (flag s) None (aq s ++ [(t, 0)]) (ak s) (xq s) (xk s) (oa s) (ox s) (remove1 t (kchk s)) (kfs s) (pops s), RPark)
+    Some (mkStk (els s) (flag s) None (aq s ++ [(t, 0)]) (ak s) (xq s) (xk s) (oa s) (ox s) (remove1 t (kchk s)) (kfs s) (pops s) (kev s) (krel s), RPark)
   else if mem t (kfs s) then   (* SignalShutdown: b.mutex.Lock(); b.mutex.Unlock(); then Broadcast *)
     if mx_free s
-    then Some (mkStk (els s) (flag s) None (aq s) (ak s) (xq s) (xk s) (oa s ++ [t]) (ox s) (kchk s) (remove1 t (kfs s)) (pops s), RCont)
+    then Some (mkStk (els s) (flag s) None (aq s) (ak s) (xq s) (xk s) (oa s ++ [t]) (ox s) (kchk s) (remove1 t (kfs s)) (pops s) (kev s) (krel s), RCont)
     else None
   else if mem t (oa s) then
-    Some (mkStk (els s) (flag s) (kmx s) [] (ak s ++ aq s) (xq s) (xk s) (remove1 t (oa s)) (ox s) (kchk s) (kfs s) (pops s), RDone)
+    Some (mkStk (els s) (flag s) (kmx s) [] (ak s ++ aq s) (xq s) (xk s) (remove1 t (oa s)) (ox s) (kchk s) (kfs s) (pops s) (kev s) (krel s), RDone)
   else if mem t (ox s) then
-    Some (mkStk (els s) (flag s) (kmx s) (aq s) (ak s) [] (xk s ++ xq s) (oa s) (remove1 t (ox s)) (kchk s) (kfs s) (pops s), RDone)
+    Some (mkStk (els s) (flag s) (kmx s) (aq s) (ak s) [] (xk s ++ xq s) (oa s) (remove1 t (ox s)) (kchk s) (kfs s) (pops s) (kev s) (krel s), RDone)
   else
   match nget t (ak s) with     (* woken from elementAdded.Wait: re-acquires the mutex, loops *)
   | Some w =>
       if negb (mx_free s) then None else
-      let s1 := mkStk (els s) (flag s) None (aq s) (ndel t (ak s)) (xq s) (xk s) (oa s) (ox s) (kchk s) (kfs s) (pops s) in
+      let s1 := mkStk (els s) (flag s) None (aq s) (ndel t (ak s)) (xq s) (xk s) (oa s) (ox s) (kchk s) (kfs s) (pops s) (kev s) (krel s) in
       Some (match w with 0 => popwait_try t s1 | S th => above_k t th s1 end)
   | None =>
   match nget t (xk s) with
   | Some th =>
       if negb (mx_free s) then None else
-      Some (below_k t th (mkStk (els s) (flag s) None (aq s) (ak s) (xq s) (ndel t (xk s)) (oa s) (ox s) (kchk s) (kfs s) (pops s)))
+      Some (below_k t th (mkStk (els s) (flag s) None (aq s) (ak s) (xq s) (ndel t (xk s)) (oa s) (ox s) (kchk s) (kfs s) (pops s) (kev s) (krel s)))
   | None => None
-  end end.
+  end end end.
 
 Record ksys := mkKSys { kst : stk; kscr : list (list kop) }.
 
@@ -491,3 +525,6 @@ Definition kstep (s : ksys) (t : tid) : option ksys := option_map fst (kstep_ev 
 Fixpoint krun (sch : list tid) (s : ksys) : ksys :=
   match sch with [] => s | t :: r => match kstep s t with Some s' => krun r s' | None => krun r s end end.
 Definition kinit (scripts : list (list kop)) : ksys := mkKSys stk0 scripts.
+(* the variant (not the code): the mutex is released around waitCondition() *)
+Definition stk0_rel : stk := mkStk [] true None [] [] [] [] [] [] [] [] [] [] true.
+Definition kinit_rel (scripts : list (list kop)) : ksys := mkKSys stk0_rel scripts.
